@@ -237,7 +237,7 @@ fn replay(v: &Value) -> Option<String> {
 fn main() {
     let ctx = Ctx::new("C20", "release");
     if let Some(v) = ctx.replay_case() {
-        guard::enter(&v.to_string());
+        let _guard_scope = guard::scoped(&v.to_string());
         ctx.finish_replay(catch(|| replay(&v)).unwrap_or_else(|p| Some(format!("panic: {p}"))));
     }
     let thorough = ctx.thorough();
@@ -265,7 +265,7 @@ fn main() {
     let evals = AtomicU64::new(0);
     guard::set_hang_secs(120);
     f32_patterns.par_chunks(1 << 16).for_each(|ch| {
-        guard::enter(&json!({"sys":"hann_f32","bits": ch[0]}).to_string());
+        let _guard_scope = guard::scoped(&json!({"sys":"hann_f32","bits": ch[0]}).to_string());
         for &bits in ch {
             if let Some(m) = hann_f32_case(bits) {
                 ctx.violation("hann.f32", json!({"sys":"hann_f32","bits":bits}), m, Some(&|| hann_f32_case(bits)));
@@ -288,7 +288,7 @@ fn main() {
         }
     }
     f64_points.par_chunks(1 << 14).for_each(|ch| {
-        guard::enter(&json!({"sys":"hann_f64","bits": ch[0].to_bits()}).to_string());
+        let _guard_scope = guard::scoped(&json!({"sys":"hann_f64","bits": ch[0].to_bits()}).to_string());
         for &p in ch {
             if let Some(m) = hann_f64_case(p) {
                 ctx.violation("hann.f64", json!({"sys":"hann_f64","bits":p.to_bits()}), m, Some(&|| hann_f64_case(p)));
@@ -315,7 +315,7 @@ fn main() {
     for kind in ["hann", "rectangle"] {
         for n in 2..=nmax {
             let case = json!({"sys":"window_iter","kind":kind,"n":n});
-            guard::enter(&case.to_string());
+            let _guard_scope = guard::scoped(&case.to_string());
             evals.fetch_add(1, Relaxed);
             match catch(|| window_iter_case(kind, n)) {
                 Ok(None) => ctx.observe(common::fnv_str(&format!("wi{kind}{n}"))),
@@ -354,7 +354,7 @@ fn main() {
     ctx.set("windower_cases", json!(cases.len()));
     cases.par_iter().for_each(|&(kind, fmt, l, b, h)| {
         let case = json!({"sys":"windower","kind":kind,"fmt":fmt,"l":l,"b":b,"h":h});
-        guard::enter(&case.to_string());
+        let _guard_scope = guard::scoped(&case.to_string());
         match catch(|| windower_dispatch(kind, fmt, l, b, h)) {
             Ok(None) => {
                 if l >= b {
